@@ -172,7 +172,8 @@ func Modf(f float64) (float64, float64) {
 		return f, f
 	}
 	frac := Mod(f, 1)
-	return f - frac, frac
+	// For f in (-1, 0) the difference is +0, the integer part is -0.
+	return Copysign(f-frac, f), frac
 }
 
 func NaN() float64 {
